@@ -56,7 +56,7 @@ import time
 import uuid as _uuid
 from typing import Any, Dict, List, Optional, Tuple
 
-from hippolyzer.lib.base.datatypes import JankStringyBytes, Quaternion, TupleCoord, UUID, Vector3, Vector4
+from hippolyzer.lib.base.datatypes import JankStringyBytes, Quaternion, TupleCoord, UUID, Vector3
 from hippolyzer.lib.base.message.message import Block, Message
 from hippolyzer.lib.base.message.udpdeserializer import UDPMessageDeserializer
 from hippolyzer.lib.base.message.udpserializer import UDPMessageSerializer
@@ -1126,7 +1126,7 @@ def check_d_case(part, gen, name: str, k: int, case: dict):
     base = gen.lib_message(case)
     try:
         b0 = bytes(_SER.serialize(base))
-    except Exception as e:  # noqa  (C01's business)
+    except Exception:  # noqa  (C01's business)
         part.count("d_skipped_unserializable")
         return
     de = _deferred_deserializer()
